@@ -134,7 +134,7 @@ func randValue(r *rand.Rand, t wire.Type, depth int) wire.Value {
 // ---------------------------------------------------------------------------
 // C02
 
-var policies = []string{"all", "one", "zero", "rand"}
+var policies = []string{"all", "one", "zero", "rand", "dataeof"}
 
 // safely runs f under the watchdog, converting a panic into its message.
 func safely(f func()) (panicked string) {
